@@ -185,10 +185,10 @@ def canon_ast(node, ints=False):
 def test_matches(test, text):
     """does the `if` test (an AST) mean what the descriptor's text says — `+` same polarity, `-` negated, None no"""
     want = ast.parse(text, mode="eval").body
-    k = ckey(test, ints=True)
-    if k == ckey(want, ints=True):
+    k = canon_ast(test, ints=True)
+    if ast_match(canon_ast(want, ints=True), k):  # the text may contain pattern variables `_x` (any subexpression)
         return "+"
-    if k == ckey(ast.UnaryOp(op=ast.Not(), operand=want), ints=True):
+    if ast_match(canon_ast(ast.UnaryOp(op=ast.Not(), operand=want), ints=True), k):
         return "-"
     return None
 
@@ -1093,7 +1093,8 @@ def gen_elt(desc, tree):
     raise Refuse(f"comprehension over `{desc['iter']}`" + (f" inside {within}(...)" if within else "") + f" not found in {desc['func']}")
 
 
-def gen_fragment(desc, tree):
+def fragment_stmts(desc, tree):
+    """the statements a descriptor selects, synthetic tail included (also used by the harness to EXECUTE the fragment)"""
     func = find_func(tree, desc["func"])
     stmts = select(func, desc.get("select"))
     if "until" in desc:
@@ -1106,7 +1107,34 @@ def gen_fragment(desc, tree):
     if "take" in desc:
         stmts = stmts[: desc["take"]]
     if "tail" in desc:
-        stmts = [*stmts, *ast.parse(desc["tail"]).body]
+        tail = desc["tail"]
+        if "tail_from" in desc:
+            # the synthetic return names the fragment's results through the expression of the source that consumes them
+            # (`np.stack([_a, _b])`, `range(_a, _b, _c)`, `_d == 0`), not through the names of locals: the first expression
+            # after the selected statements that matches the pattern supplies the pattern variables of `tail`
+            last = max((getattr(n, "end_lineno", 0) for st in stmts for n in ast.walk(st)), default=0)
+            pat = canon_ast(desc["tail_from"])
+            cap = None
+            for n in sorted((n for n in ast.walk(func) if isinstance(n, ast.expr) and getattr(n, "lineno", 0) > last),
+                            key=lambda n: (n.lineno, n.col_offset)):
+                c = {}
+                if ast_match(pat, canon_ast(n), c):
+                    cap = c
+                    break
+            if cap is None:
+                raise Refuse(f"expression `{desc['tail_from']}` not found after the fragment in {desc['func']}")
+            t = ast.parse(tail)
+
+            class S(ast.NodeTransformer):
+                def visit_Name(s_, x):
+                    return copy.deepcopy(cap[x.id]) if x.id in cap else x
+            tail = ast.unparse(S().visit(t))
+        stmts = [*stmts, *ast.parse(tail).body]
+    return stmts
+
+
+def gen_fragment(desc, tree):
+    stmts = fragment_stmts(desc, tree)
     tr = Tr(desc, stmts)
     body = tr.block(stmts, dict(tr.penv))
     rt = {"int": "Int", "slice3": "Int × Int × Int", "unit": "Unit", "bool": "Bool"}[desc["ret"]]
